@@ -248,6 +248,7 @@ def setupAll (v : Version) (env : Env) (g : Nat) : PyState → List Nat → PySt
 inductive Call where
   | setTimegrid (a g : Nat)                 -- `asset.set_timegrid(tg)`
   | setup (a : Nat) (arg : Option Nat)      -- `asset.setup_optim_problem(prices[, tg])`
+  | setTimegridSub (a i g : Nat)            -- `set_timegrid(tg)` on the `i`-th asset WRAPPED by asset `a`
   | setupSub (a i : Nat) (arg : Option Nat) -- the same on the `i`-th asset WRAPPED by asset `a` (base / inner asset), called directly
   | setupPortfolio (arg : Option Nat)       -- `portfolio.setup_optim_problem(prices[, tg])` (also cost samples)
   | setupSplit (g : Nat) (tmp : List Nat)   -- `portfolio.setup_split_optim_problem(prices, tg, ...)`; `tmp`: the interval grid objects
@@ -267,6 +268,15 @@ def setTimegridSt (env : Env) (s : PyState) (a g : Nat) : PyState :=
   let p := (env.asset a).params
   { s with grids := writeSlots s.grids g p.start p.stop p.freq p.wacc,
            assets := fun i => if i = a then { s.assets a with grid := some g } else s.assets i }
+
+/-- `set_timegrid(tg)` called directly on the `i`-th asset wrapped by `a` (its CURRENT start / end) -/
+def setTimegridSubSt (env : Env) (s : PyState) (a i g : Nat) : PyState :=
+  let st := s.assets a
+  match st.sub[i]?, (env.asset a).subs[i]? with
+  | some b, some q =>
+    { s with grids := writeSlots s.grids g b.start b.stop q.freq q.wacc,
+             assets := fun j => if j = a then { st with sub := st.sub.set i { b with grid := some g } } else s.assets j }
+  | _, _ => s
 
 /-- direct set-up of the `i`-th asset wrapped by `a` -/
 def setupSubSt (v : Version) (env : Env) (s : PyState) (a i : Nat) (arg : Option Nat) : PyState × Result :=
@@ -298,6 +308,7 @@ def restoreTop (env : Env) (g : Nat) : PyState → List Nat → PyState
 def setupSt (v : Version) (env : Env) (s : PyState) : Call → PyState × Result
   | .setTimegrid a g => (setTimegridSt env s a g, .ok [])
   | .setup a arg => setupAsset v env s a arg
+  | .setTimegridSub a i g => (setTimegridSubSt env s a i g, .ok [])
   | .setupSub a i arg => setupSubSt v env s a i arg
   | .setupPortfolio arg => setupPortfolioSt v env s arg
   | .setupSplit g tmp =>
@@ -370,6 +381,7 @@ def setupPure (env : Env) (ptrs : Ptrs) : Call → Result
     | none => .error .noGrid
   | .setupSplit _ tmp => .ok (tmp.flatMap fun t => (List.range env.length).flatMap fun a => pureAsset (env.asset a) t)
   | .setTimegrid _ _ => .ok []
+  | .setTimegridSub _ _ _ => .ok []
   | .dcf _ => .ok []
   | .fillLevel a => match ptrs.asset a with | some _ => .ok [] | none => .error .noGrid
   | .makeSlp _ _ => .ok []
